@@ -15,7 +15,13 @@
 (*           scales [key, size, chunk, sharded, st (per chunk "ok" |        *)
 (*           "absent" | "unreadable"), vox (array index of the decoded      *)
 (*           whole scale, 0 unless every chunk is ok), nstored (chunks      *)
-(*           found on disk)], tree (hash of all files)                      *)
+(*           found on disk), ncell (chunks of THIS chunking found on disk), *)
+(*           alt (further chunk_sizes entries of the scale, each with       *)
+(*           chunk, st, vox, ncell)], tree (hash of all files)              *)
+(*   fmt     (Convert events with a sharded destination) per scale the      *)
+(*           .shard files in the abstract form of ShardFormat.tla with the  *)
+(*           payloads replaced by the index of their decoded voxels, and    *)
+(*           per grid position the index of the source voxels of that chunk *)
 (*   report  tokenised stdout of scale-stats                                *)
 (*                                                                          *)
 (* The trace is consumed event by event with Pipeline's design function     *)
@@ -39,7 +45,14 @@
 (*                                  (first run exit 0) changed decoded      *)
 (*                                  contents / info files                   *)
 (*   oracle:ConvertVoxelsDiffer     exit 0 and some scale of the            *)
-(*                                  destination /= Convert(source scale)    *)
+(*                                  destination /= Convert(source scale),   *)
+(*                                  for EVERY chunking the info declares    *)
+(*   oracle:ConvertSpecReaderDiffers exit 0, sharded destination: a reader  *)
+(*                                  written from the format text            *)
+(*                                  (ShardFormat!SpecLookup with the        *)
+(*                                  compressed Morton code of Morton.tla)   *)
+(*                                  does not find some chunk, or finds      *)
+(*                                  voxels /= Convert(source chunk)         *)
 (*   oracle:AllInOneInfoDiffers / oracle:AllInOneVoxelsDiffer               *)
 (*   oracle:StatsReportMissing / StatsChunkCount / StatsByteSize /          *)
 (*   StatsTotals                    scale-stats exit 0 but ...              *)
@@ -56,6 +69,8 @@
 (*    (= prod(size) * itemsize * channels = length of the decoded array *   *)
 (*    itemsize).  Datasets are < 2 MB so the arithmetic fits TLC integers.  *)
 EXTENDS Pipeline, Integers, Json, IOUtils, SequencesExt
+
+SF == INSTANCE ShardFormat      \* oracle reader of the sharded format (no constants)
 
 Cases == ndJsonDeserialize(IOEnv.TRACE_FILE)
 
@@ -118,6 +133,12 @@ ScaleComplete(sc) ==
 ScalesComplete(sd, from) ==
   FirstBad([j \in 1..Len(sd.scales) |-> IF j >= from THEN ScaleComplete(sd.scales[j]) ELSE "ok"])
 
+\* every chunking the info declares for the scale (convert-chunks writes them all)
+ScaleCompleteAll(sc) ==
+  FirstBad(<<ScaleComplete(sc)>> \o [a \in 1..Len(sc.alt) |-> ScaleComplete(sc.alt[a])])
+ScalesCompleteAll(sd) == FirstBad([j \in 1..Len(sd.scales) |-> ScaleCompleteAll(sd.scales[j])])
+AnyPresent(sc) == \E k \in 1..Len(sc.st) : sc.st[k] # "absent"
+
 InfoOk(sd) == sd.info.st = "ok" /\ Len(sd.scales) >= 1
 
 \* (c) exit status 0 => everything the step is responsible for exists, readable
@@ -126,6 +147,8 @@ SuccessClause(c, S1) ==
   CASE c.op = "GenInfo"   -> Chk(sd.fullres = "ok" /\ sd.transform = "ok", "oracle:SuccessButMissingFile")
     [] c.op = "GenScales" -> Chk(InfoOk(sd), "oracle:SuccessButMissingFile")
     [] c.op = "Edit"      -> "ok"
+    [] c.op = "Rechunk"   -> "ok"
+    [] c.op = "Obstruct"  -> "ok"
     [] c.op = "Stats"     -> "ok"
     [] c.op = "HandInfo"  -> Chk(sd.fullres = "ok", "oracle:SuccessButMissingFile")
     [] c.op \in {"Vol", "Slices"}
@@ -133,6 +156,8 @@ SuccessClause(c, S1) ==
                              ELSE ScaleComplete(sd.scales[1])
     [] c.op = "Compute"   -> IF ~InfoOk(sd) THEN "oracle:SuccessButMissingFile"
                              ELSE ScalesComplete(sd, 2)
+    [] c.op = "Convert"   -> IF ~InfoOk(sd) THEN "oracle:SuccessButMissingFile"
+                             ELSE ScalesCompleteAll(sd)
     [] OTHER              -> IF ~InfoOk(sd) THEN "oracle:SuccessButMissingFile"
                              ELSE ScalesComplete(sd, 1)
 
@@ -146,6 +171,10 @@ DirSame(a, b) ==
         /\ a.scales[j].key = b.scales[j].key
         /\ a.scales[j].st = b.scales[j].st
         /\ VoxEq(a.scales[j].vox, b.scales[j].vox)
+        /\ Len(a.scales[j].alt) = Len(b.scales[j].alt)
+        /\ \A x \in 1..Len(a.scales[j].alt) :
+              /\ a.scales[j].alt[x].st = b.scales[j].alt[x].st
+              /\ VoxEq(a.scales[j].alt[x].vox, b.scales[j].alt[x].vox)
 
 FirstOk(c, e) == e = 0 \/ (c.op = "GenInfo" /\ e = 4)
 
@@ -174,8 +203,30 @@ ConvertClause(k) ==
                     /\ LET sj == CHOOSE x \in J : TRUE IN
                        /\ src.scales[sj].vox # 0
                        /\ dst.scales[j].vox # 0
-                       /\ ConvOk(Arr(src.scales[sj].vox), Arr(dst.scales[j].vox), dst.info.dtype),
+                       /\ ConvOk(Arr(src.scales[sj].vox), Arr(dst.scales[j].vox), dst.info.dtype)
+                       /\ \A x \in 1..Len(dst.scales[j].alt) :
+                             /\ dst.scales[j].alt[x].vox # 0
+                             /\ ConvOk(Arr(src.scales[sj].vox), Arr(dst.scales[j].alt[x].vox),
+                                       dst.info.dtype),
               "oracle:ConvertVoxelsDiffer")
+
+\* C13 for a reader that follows the sharded format text: every chunk of the
+\* destination grid is located by SpecLookup (slot = minishard number, ids
+\* cumulative) under its compressed Morton code and decodes to the source chunk
+SpecReaderClause(k) ==
+  LET c == Ev[k].cmd IN
+  IF c.op # "Convert" \/ Ev[k].exit # 0 \/ Ev[k].fmt = << >> THEN "ok"
+  ELSE LET dt == Ev[k].snap[c.d].info.dtype IN
+       Chk(\A j \in 1..Len(Ev[k].fmt) :
+              LET f == Ev[k].fmt[j] IN
+              \A x \in 1..Len(f.chunks) :
+                 LET ch == f.chunks[x]
+                     r == SF!SpecLookup(f.cfg, f.files, SF!Code(f.cfg.grid, ch.pos))
+                 IN /\ r.st = "found"
+                    /\ r.pay.st = "ok" /\ Len(r.pay.data) = 1
+                    /\ r.pay.data[1] # 0 /\ ch.src # 0
+                    /\ ConvOk(Arr(ch.src), Arr(r.pay.data[1]), dt),
+           "oracle:ConvertSpecReaderDiffers")
 
 \* (a) all-in-one = steps, on the pairs the provenance tracker relates
 PairClause(p, pv, S1) ==
@@ -211,27 +262,49 @@ Prod3(s) == s[1] * s[2] * s[3]
 TrueBytes(sd, sc) == Prod3(sc.size) * sd.info.itemsize * sd.info.channels
 SumSeq(s) == FoldLeft(LAMBDA a, b : a + b, 0, s)
 
+\* one report line per (scale, chunking), in the order of the info
+LineRefs(sd) ==
+  FoldLeft(LAMBDA acc, j : acc \o <<<<j, 0>>>> \o [x \in 1..Len(sd.scales[j].alt) |-> <<j, x>>],
+           << >>, [j \in 1..Len(sd.scales) |-> j])
+ChunkingOf(sd, ref) == IF ref[2] = 0 THEN sd.scales[ref[1]] ELSE sd.scales[ref[1]].alt[ref[2]]
+
+DataOps == {"Vol", "Slices", "Compute", "Convert", "AllInOne"}
+\* no data-writing command on this directory has failed so far
+DirClean(k, d) ==
+  \A i \in 1..(k - 1) : (Ev[i].cmd.d = d /\ Ev[i].cmd.op \in DataOps) => Ev[i].exit = 0
+
 StatsClause(k) ==
   LET c == Ev[k].cmd
       r == Ev[k].report
       sd == Ev[k].snap[c.d]
   IN
   IF c.op # "Stats" \/ Ev[k].exit # 0 THEN "ok"
-  ELSE IF ~r.ok \/ sd.info.st # "ok" \/ Len(r.lines) # Len(sd.scales) THEN "oracle:StatsReportMissing"
-  ELSE LET N == Len(sd.scales)
-           allDone == \A j \in 1..N : ScDone(sd.scales[j])
+  ELSE IF ~r.ok \/ sd.info.st # "ok" \/ Len(r.lines) # Len(LineRefs(sd)) THEN "oracle:StatsReportMissing"
+  ELSE LET refs == LineRefs(sd)
+           N == Len(refs)
+           Sc(i) == sd.scales[refs[i][1]]
+           Ck(i) == ChunkingOf(sd, refs[i])
+           \* the tools have produced this chunking: completely, or in part by
+           \* commands that all reported success
+           produced(i) == ScDone(Ck(i)) \/ (DirClean(k, c.d) /\ AnyPresent(Ck(i)))
+           allDone == \A i \in 1..N : ScDone(Ck(i))
        IN FirstBad(
-            [j \in 1..N |-> Chk(r.lines[j].key = sd.scales[j].key, "oracle:StatsReportMissing")]
-            \o [j \in 1..N |-> Chk(ScDone(sd.scales[j]) => (r.lines[j].n = sd.scales[j].nstored),
+            [i \in 1..N |-> Chk(r.lines[i].key = Sc(i).key /\ r.lines[i].chunk = Ck(i).chunk,
+                                 "oracle:StatsReportMissing")]
+            \o [i \in 1..N |-> Chk(/\ (produced(i) => (r.lines[i].n = Ck(i).ncell))
+                                   /\ ((ScDone(Ck(i)) /\ Len(Sc(i).alt) = 0)
+                                         => (r.lines[i].n = Sc(i).nstored)),
                                    "oracle:StatsChunkCount")]
-            \o [j \in 1..N |-> Chk(/\ Within(r.lines[j].size, TrueBytes(sd, sd.scales[j]))
-                                   /\ (ScDone(sd.scales[j]) =>
-                                        Within(r.lines[j].size,
-                                               Len(Arr(sd.scales[j].vox).v) * sd.info.itemsize)),
+            \o [i \in 1..N |-> Chk(/\ Within(r.lines[i].size, TrueBytes(sd, Sc(i)))
+                                   /\ (ScDone(Ck(i)) =>
+                                        Within(r.lines[i].size,
+                                               Len(Arr(Ck(i).vox).v) * sd.info.itemsize)),
                                    "oracle:StatsByteSize")]
-            \o << Chk(allDone => (r.total.n = SumSeq([j \in 1..N |-> sd.scales[j].nstored])),
+            \o << Chk(allDone => (r.total.n = SumSeq([i \in 1..N |-> Ck(i).ncell])),
                       "oracle:StatsTotals"),
-                  Chk(Within(r.total.size, SumSeq([j \in 1..N |-> TrueBytes(sd, sd.scales[j])])),
+                  \* totals = sums: of the reported per-line counts, and of the true sizes
+                  Chk(r.total.n = SumSeq([i \in 1..N |-> r.lines[i].n]), "oracle:StatsTotals"),
+                  Chk(Within(r.total.size, SumSeq([i \in 1..N |-> TrueBytes(sd, Sc(i))])),
                       "oracle:StatsTotals") >>)
 
 OracleClause(k, pv) ==
@@ -239,6 +312,7 @@ OracleClause(k, pv) ==
               IF Ev[k].exit = 0 THEN SuccessClause(Ev[k].cmd, Ev[k].snap) ELSE "ok",
               RepeatClause(k),
               ConvertClause(k),
+              SpecReaderClause(k),
               AioClause(pv, Ev[k].snap),
               StatsClause(k) >>)
 
@@ -303,7 +377,8 @@ Adopt(m, sd, k, d) ==
                  THEN (IF m.chunks[i] # "absent" THEN m.chunks[i]
                        ELSE "obs" \o ToString(k) \o d \o ToString(i))
                  ELSE "absent"],
-   mis |-> {}]
+   mis |-> {},
+   blocked |-> m.blocked]
 
 \* ---- behaviour -------------------------------------------------------------------------
 TraceInit ==
